@@ -627,9 +627,6 @@ func ParseBody(kind string, b []byte, o Parse) (model.Payload, error) {
 			return p, err
 		}
 		p.KE = &model.KE{Group: g, Data: cp(r.rest())}
-		if o.Strict && len(p.KE.Data) == 0 {
-			return p, errors.New("ref: empty KE data")
-		}
 	case model.KIDi, model.KIDr:
 		t, err := r.u8()
 		if err != nil {
